@@ -75,14 +75,17 @@ AllKeys == Required \o <<"slice_caps">>
 Abs(x) == IF x < 0 THEN 0 - x ELSE x
 Mx(a, b) == IF a > b THEN a ELSE b
 Mn(a, b) == IF a < b THEN a ELSE b
-Rev(s) == [p \in 1..Len(s) |-> s[Len(s) + 1 - p]]
-Map(s, F(_)) == [p \in 1..Len(s) |-> F(s[p])]
+\* TLC passes operator arguments by name and re-evaluates them at every use; a bound variable holds a VALUE
+\* (hence the singleton comprehension in StableSort) and Force turns a lazily applied function into a tuple.
+Force(s) == s \o <<>>
+Rev(s) == Force([p \in 1..Len(s) |-> s[Len(s) + 1 - p]])
+Map(s, F(_)) == Force([p \in 1..Len(s) |-> F(s[p])])
 
 \* stable sort of a sequence under a strict weak order Lt
-StableSort(s, Lt(_, _)) ==
-    LET n == Len(s)
-        pos == [i \in 1..n |-> 1 + Cardinality({j \in 1..n : Lt(s[j], s[i]) \/ (~Lt(s[i], s[j]) /\ j < i)})]
-    IN [p \in 1..n |-> s[CHOOSE i \in 1..n : pos[i] = p]]
+StableSort(s0, Lt(_, _)) ==
+    CHOOSE r \in {Force(LET n == Len(s)
+                            pos == [i \in 1..n |-> 1 + Cardinality({j \in 1..n : Lt(s[j], s[i]) \/ (~Lt(s[i], s[j]) /\ j < i)})]
+                        IN [p \in 1..n |-> s[CHOOSE i \in 1..n : pos[i] = p]]) : s \in {s0}} : TRUE
 
 \* strictly increasing sequence of the members of a set of integers
 SortedSet(S) == LET n == Cardinality(S) IN
